@@ -2,14 +2,14 @@ INIT OInit
 NEXT ONext
 CONSTANTS
   Species = {"A", "B", "C", "D"}
-  Catalog <- Cat16
-  MaxR = 3
+  Catalog <- Cat32
+  MaxR = 2
   KVals <- K3
   Orders <- OrdOne
   FullOrder = FALSE
   Points <- Pts1
-  Feeds <- NoFeeds
-  Configs <- CfgThree
+  Feeds <- Fd1
+  Configs <- CfgConstFew
   Comp <- CompDef
 INVARIANT FreeVsInlinedAgree
 INVARIANT ConfigOnlyChangesFreeSymbols
